@@ -27,7 +27,7 @@ def fields_rule(ctx, res):
     for tname, (tpath, method, root) in TRAITS.items():
         key = "C14.fields/" + tname
         rx = r"^<json_syntax::Object as %s>::%s" % (re.escape(tpath), method)
-        insts = [i for i in P.inst if re.search(rx, i["name"])]
+        insts = [i for i in P.inst if re.search(rx, i["name"]) and "{closure" not in i["name"]]
         if not insts:
             res.violation("C14.fields", key + "/missing", "impl %s for Object: no instance of `%s` in the program (anchor lost)" % (tname, method))
             continue
